@@ -130,8 +130,13 @@ define LogOK(s) = s.db != nil && len(s.cfHandles) == 3
 
 func raftLog.encodeRaftLog
   ensures isnil(result_1) ==> true
+// what GetLog hands back is, field by field, what the stored bytes decode to: no field is
+// dropped or left over from the caller's entry (the decoder itself is an assumed model)
 func raftLog.decodeRaftLog
+  props C15
+  requires log != nil
   modifies *log
+  ensures C15/every-field-from-the-stored-bytes: isnil(result) ==> log.Index == rlIndex(bytes(buf)) && log.Term == rlTerm(bytes(buf)) && uint8(log.Type) == rlType(bytes(buf)) && bytes(log.Data) == rlData(bytes(buf)) && bytes(log.Extensions) == rlExt(bytes(buf))
 
 // an entry is stored under the big-endian bytes of ITS index, in the log table, with one write
 func raftLog.StoreLog
